@@ -9,21 +9,6 @@ forms as keys (a key already inserted for the same variant is skipped) and keeps
 -/
 namespace Strum
 
-theorem asciiLower_idem (b : Nat) : asciiLower (asciiLower b) = asciiLower b := by
-  simp only [asciiLower, isUpper]
-  by_cases h : (65 ≤ b ∧ b ≤ 90)
-  · have h2 : ¬ (65 ≤ b + 32 ∧ b + 32 ≤ 90) := by omega
-    simp [h]; omega
-  · simp [h]
-
-theorem asciiLower_upper (b : Nat) : asciiLower (asciiUpper b) = asciiLower b := by
-  simp only [asciiLower, asciiUpper, isUpper, isLower]
-  by_cases h1 : (97 ≤ b ∧ b ≤ 122)
-  · have h2 : ¬ (65 ≤ b ∧ b ≤ 90) := by omega
-    have h3 : (65 ≤ b - 32 ∧ b - 32 ≤ 90) := by omega
-    simp [h1, h2, h3]; omega
-  · simp [h1]
-
 theorem eqI_lowerAll (sp : Bytes) : eqIgnoreAsciiCase (lowerAll sp) sp = true := by
   rw [eqIgnoreAsciiCase_iff_map]; simp [lowerAll, asciiLower_idem]
 
